@@ -378,6 +378,23 @@ def eval_chunks(ctx, items, typ, fn, tag, per=120, extra=None):
     return mism, total
 
 
+def case_errors(res):
+    """records where the library raised while the case ran (refs_runner.guarded):
+    [(case index, build, {exc, msg, step})]"""
+    return [(i, b, r["case_error"]) for b in sorted(res) for i, r in enumerate(res[b]) if "case_error" in r]
+
+
+def has_error(res, i):
+    return any("case_error" in res[b][i] for b in res)
+
+
+def describe_errors(errs, what):
+    if errs:
+        i, b, e = errs[0]
+        what.append(f"the library raised while {len(errs)} case(s) ran (outcome the model does not predict), first: case {i} build {b}: "
+                    f"{e['exc']}: {e['msg']} at {e['step']}")
+
+
 def run_both(payloads, mode_timeout=900):
     """run each payload on the compiled and on the pure build; returns
     {build: [result per payload]}"""
